@@ -50,7 +50,7 @@ def h_submit(tier):
         _ob("H-submit/G2", H, "h_submit", dict(shapes=["chain3"], bss=[1, 2], maxns=[None], G=2, fails=False), **_HO),
         _ob("H-submit/states", H, "h_submit", dict(shapes=["indep3", "chain3"], bss=[1], maxns=[1, 2], fails=False, cancel_flags=False,
                                                     aliases=["RUNNING", "SUSPENDED", "CONFIGURING"]), **_HO),
-        _ob("H-submit/local", H, "h_submit", dict(shapes=["chain3", "join3", "fork3"], bss=[3], maxns=[None], local=True,
+        _ob("H-submit/local", H, "h_submit", dict(shapes=["chain3", "join3", "fork3", "rchain3", "mid3"], bss=[3], maxns=[None], local=True,
                                                    procs=2), **_HO),
         _ob("H-submit/procs", H, "h_submit", dict(shapes=["indep3", "fork3"], bss=[3], maxns=[None], fails=False, cancel_flags=False,
                                                    cpus=2), **_HO),
